@@ -13,7 +13,7 @@ import LlgoVerif.Model.Layout
 
     target ∈ amd64 | arm64 | 386 | arm | wasm | custom:<ptr>,<gc 0/1>,<word>,<maxalign>,<i8>,<i16>,<i32>,<i64>,<f32>,<f64>,<ptr>
     term: b i8 i16 i32 i64 u8 u16 u32 u64 i u up f32 f64 c64 c128 str usp | F | F1 | E | I | P(t) S(t) C(t) N(t)
-          | A(n,t) | M(k,v) | T(t,…) | B(t) = blank `_` field of a struct    (same grammar as harness/c08/main.go)
+          | A(n,t) | M(k,v) | T(t,…) | B(t) = blank `_` field of a struct | L(t) = alias    (same grammar as harness/c08/main.go)
     <offs> = `-` non-struct, `.` struct without fields, else o1:o2:… -/
 open LlgoVerif LlgoVerif.Util LlgoVerif.Layout
 
@@ -48,6 +48,7 @@ partial def pTerm (cs : List Char) : Option (GoType × List Char) :=
     | "S" => do let r ← expectC '(' r; let (e, r) ← pTerm r; let r ← expectC ')' r; pure (.slice e, r)
     | "C" => do let r ← expectC '(' r; let (e, r) ← pTerm r; let r ← expectC ')' r; pure (.chan e, r)
     | "N" => do let r ← expectC '(' r; let (e, r) ← pTerm r; let r ← expectC ')' r; pure (.named e, r)
+    | "L" => do let r ← expectC '(' r; let (e, r) ← pTerm r; let r ← expectC ')' r; pure (.alias e, r)
     | "B" => do let r ← expectC '(' r; let (e, r) ← pTerm r; let r ← expectC ')' r; pure (e, r)   -- blank `_` field: names play no role in the model
     | "A" => do
       let r ← expectC '(' r
@@ -144,6 +145,20 @@ def handle (v : Variant) (line : String) : Variant × String :=
     match parseTarget tgs, parseTerm ts with
     | some tg, some t => (v, s!"{padFree tg t} {padFree tg (toRaw t)}")
     | _, _ => (v, "bad-op")
+  | ["ch", tgs, ts, ps] =>
+    -- per-instance unsafe.Offsetof: path = i1[e|i].i2[e|i]…  (field index, selector written / inserted for promotion)
+    let step (x : String) : Option (Nat × Bool) :=
+      let cs := x.toList
+      match cs.getLast? with
+      | some 'e' => (String.ofList cs.dropLast).toNat?.map (·, true)
+      | some 'i' => (String.ofList cs.dropLast).toNat?.map (·, false)
+      | _ => none
+    match parseTarget tgs, parseTerm ts, (ps.splitOn ".").mapM step with
+    | some tg, some t, some path =>
+      match genericOffsetof tg t path with
+      | some n => (v, s!"ch={n}")
+      | none => (v, "bad-path")
+    | _, _, _ => (v, "bad-op")
   | ["tg", tgs] =>
     match parseTarget tgs with
     | some tg => (v, showTarget tg)
